@@ -24,13 +24,17 @@ RULE = ('UPDATE dicts: withdraw-only / announce / announce+withdraw, IPv4 prefix
         'subsets in random order always containing ORIGIN/AS_PATH/NEXT_HOP when prefixes are announced, integer fields '
         'at 0,1,2^15,2^16-1,2^16,2^31,2^32-1, AS_PATH of all four segment types across the 255-octet boundary, all '
         'well-known community names, every extended-community kind the encoder accepts, large communities to 2^32-1, '
-        '2- and 4-octet AS mode. Non-trivial = >= 2 prefixes, or a prefix length that is 0, 32 or not a multiple of 8, '
+        '2- and 4-octet AS mode; the same cases (without extended communities) requested through POST /send/update on '
+        'Established eBGP / iBGP sessions in both AS modes, decoding what was written to the peer, plus the grid session '
+        'kind x LOCAL_PREF x MED over 7 boundary values. Non-trivial = >= 2 prefixes, or a prefix length that is 0, 32 or not a multiple of 8, '
         'or >= 4 attributes, or a boundary integer; distinct by canonical JSON.')
 ASSUMPTIONS = [
     'a construct() exception is accepted only when a list-valued attribute exceeds 255 octets (the encoder documents '
     'no extended length for them); anything else the generator produces is in range',
     'color-00/01/10/11 inputs are expected back as color:<n> (the text form has no place for the CO bits)',
     'traffic-rate values are integers exactly representable as IEEE-754 single precision',
+    'via REST: the API takes a request iff it has (attributes and NLRI) or withdrawals, and on iBGP sessions adds the '
+    'documented default LOCAL_PREF 100 when none is given (C16); refused requests outside that domain are not cases',
 ]
 EXHAUSTIVE = {'quick': False, 'thorough': False}
 
@@ -346,7 +350,82 @@ def shards(tier):
     per = 400 if tier == 'quick' else 19000
     out = [{'name': 'updates-%d' % i, 'kind': 'hyp', 'examples': per, 'hypothesis': True} for i in range(15)]
     out.append({'name': 'prefix-grid', 'kind': 'grid'})
+    out += [{'name': 'rest-%d' % i, 'kind': 'rest', 'examples': 250 if tier == 'quick' else 6000, 'hypothesis': True}
+            for i in range(4 if tier == 'quick' else 8)]
+    out.append({'name': 'rest-grid', 'kind': 'restgrid'})
     return out
+
+
+# ---- the same round trip for UPDATEs requested through the REST API on an Established session -------
+NUM_EDGE = st.one_of(st.sampled_from([0, 0, 1, 100, 2 ** 31, 2 ** 32 - 1]), vs.u32)
+
+
+@st.composite
+def rest_case_strategy(draw):
+    case = draw(update_case())
+    case['attr'].pop('16', None)          # the REST text forms of extended communities are C17's subject
+    case['order'] = [c for c in case['order'] if c != 16]
+    for k in ('4', '5'):
+        if k in case['attr'] and draw(st.booleans()):
+            case['attr'][k] = draw(NUM_EDGE)
+    case['ibgp'] = draw(st.booleans())
+    case['via'] = 'rest'
+    return case
+
+
+def rest_check(case):
+    from vlib.props import c16
+    from vlib import session as ss
+    sim = c16.make_state('ESTABLISHED', ibgp=case['ibgp'], as4=case['asn4'])
+    if sim.state != 'ESTABLISHED':
+        return 'fail', [('harness:not-established', sim.state)]
+    req = {}
+    if case['attr']:
+        req['attr'] = {str(c): case['attr'][str(c)] for c in case['order']}
+    if case['nlri']:
+        req['nlri'] = list(case['nlri'])
+    if case['withdraw']:
+        req['withdraw'] = list(case['withdraw'])
+    mark = sim.mark()
+    code, body = sim.rest('POST', '/v1/peer/%s/send/update' % c16.PEER, json_body=req)
+    sim.reactor.settle(fire_due=True)
+    ok = code == 200 and isinstance(body, dict) and body.get('status') is True
+    if not ok:
+        # the REST API takes an UPDATE request iff it has (attributes and NLRI) or withdrawals (api/v1.py)
+        if oversized(case) is not None or not ((req.get('attr') and req.get('nlri')) or req.get('withdraw')):
+            return 'rejected', []
+        return 'fail', [('rest:refused:%s' % code, 'request %r answered %s %r' % (req, code, body))]
+    try:
+        frames = [f for f in ss.frames_written(sim.since(mark)) if f[1] == rc.UPDATE]
+    except rc.WalkError as e:
+        return 'fail', [('rest:unframed', str(e))]
+    if len(frames) != 1:
+        return 'fail', [('rest:frames=%d' % len(frames), 'status true but %d UPDATE frames written' % len(frames))]
+    try:
+        got = Update.parse(None, frames[0][2], case['asn4'])
+    except Exception as e:
+        return 'fail', [('rest:parse-exception:' + exc_sig(e), repr(e))]
+    exp = expected(case)
+    if case['ibgp'] and exp['attr'] and 5 not in exp['attr']:
+        exp['attr'][5] = 100           # the documented default LOCAL_PREF on iBGP sessions
+    out = []
+    if got.get('sub_error'):
+        return 'fail', [('rest:sub-error:%s' % got.get('sub_error'), 'own encoding %s' % frames[0][2].hex()[:200])]
+    for part in ('nlri', 'withdraw'):
+        dp = diff_path(exp[part], got.get(part))
+        if dp:
+            out.append(('rest:mismatch:%s%s' % (part, dp), '%s: requested %r decoded %r' % (part, exp[part], got.get(part))))
+    got_attr = got.get('attr') or {}
+    if set(exp['attr']) != set(got_attr):
+        out.append(('rest:mismatch:attr-keys:missing=%s,extra=%s' % (sorted(set(exp['attr']) - set(got_attr)),
+                                                                      sorted(set(got_attr) - set(exp['attr']))),
+                    'requested %r decoded %r' % (sorted(exp['attr']), sorted(got_attr))))
+    for code_ in sorted(set(exp['attr']) & set(got_attr)):
+        dp = diff_path(exp['attr'][code_], got_attr[code_])
+        if dp:
+            out.append(('rest:mismatch:attr%d%s' % (code_, dp),
+                        'attr %d: requested %r decoded %r' % (code_, exp['attr'][code_], got_attr[code_])))
+    return ('fail' if out else 'ok'), out
 
 
 BASE_ATTR = {'1': 0, '2': [[2, [65001, 65002]]], '3': '10.0.0.1'}
@@ -364,6 +443,35 @@ def run_shard(spec, seed, col, tier):
             for sig, detail in res:
                 col.fail(sig, case, detail)
         hyp_run(col, update_case(), body, seed, spec['examples'])
+    elif spec['kind'] == 'restgrid':
+        # every boundary value of the two 32-bit attributes on every kind of session, alone and together
+        vals = [None, 0, 1, 100, 2 ** 31 - 1, 2 ** 31, 2 ** 32 - 1]
+        for ibgp in (False, True):
+            for asn4 in (True, False):
+                for lp in vals:
+                    for med in vals:
+                        a = dict(BASE_ATTR)
+                        order = [1, 2, 3]
+                        if med is not None:
+                            a['4'] = med
+                            order.append(4)
+                        if lp is not None:
+                            a['5'] = lp
+                            order.append(5)
+                        case = {'asn4': asn4, 'attr': a, 'order': order, 'nlri': ['10.1.0.0/16'], 'withdraw': [],
+                                'ibgp': ibgp, 'via': 'rest'}
+                        status, res = rest_check(case)
+                        col.case(case, True, labels=['via-rest-grid', 'ibgp:%s' % ibgp])
+                        for sig, detail in res:
+                            col.fail(sig, case, detail)
+    elif spec['kind'] == 'rest':
+        def rbody(case):
+            status, res = rest_check(case)
+            col.case(case, nontrivial(case) or case['ibgp'], labels=['via-rest', 'ibgp:%s' % case['ibgp'], 'asn4:%s' % case['asn4'],
+                                                                     'status:' + status])
+            for sig, detail in res:
+                col.fail(sig, case, detail)
+        hyp_run(col, rest_case_strategy(), rbody, seed, spec['examples'])
     else:
         # exhaustive: every length x 6 addresses x (alone / before / after another prefix) x (nlri / withdraw)
         addrs = [0, 0xFFFFFFFF, 0x80000000, 0x0A0B0C0D, 0x01010101, 0xC0A8FFFF]
@@ -386,4 +494,6 @@ def run_shard(spec, seed, col, tier):
 
 
 def replay(case):
+    if case.get('via') == 'rest':
+        return rest_check(case)[1]
     return check_case(case)[1]
